@@ -32,6 +32,10 @@ CHECKS = {
    "C12Model.tla (extends the reference interpreter SoyExec, whose writer component carries a fault plan) is model-checked over every fault plan of small programs (WriterLatch, PrefixOk, OkMeansComplete, ...; the deviation write_error_dropped must be caught and its counterexample is replayed); on the real code every write-call index and every byte capacity of the fault-free run of each template (systematic site families, features.soy, generated bundles) is injected with dead / fail-once / short-write writers; sampled cap-plans are validated against the model by TLC (C12Trace)",
    "write segmentation is never compared; bytes accepted after a recovering writer's failure are not judged; M3 restricted to ASCII programs",
    "TLA+ writer/fault-plan model checked by TLC + exhaustive fault enumeration on the real renderer + TLC trace validation of sampled faulted runs", "§5 C12"),
+ "C15": ("model_checking",
+   "SoyRawText.tla states the line-joining rule declaratively (A) and models the seven-flag normaliser as a per-character machine (B); TLC checks (B) = (A) and the rule's own invariants for every string up to a length bound over {a < > space tab CR LF e-acute} in every neighbour context and that 9 named deviations are caught; the same strings are rendered by the real code between every kind of neighbouring tag/comment and compared with (A) (weak obligations next to comments, where the repository's tests pin trimming); random longer strings are validated by TLC (SoyRawTextTrace)",
+   "next to a comment only the obligations every reading supports are demanded; multi-byte runes are represented by ASCII stand-ins inside TLC",
+   "declarative rule vs implementation-shaped machine equivalence model check; exhaustive short strings replayed on the real lexer/parser/renderer; TLC trace validation", "§5 C15"),
 }
 
 NOT_YET = {
